@@ -166,8 +166,8 @@ Qed.
 (* V2 after losing node b1: partition lists keep their surviving members, stay valid *)
 Example C17_ex_v2_chain :
   exists l0 l1,
-    rebalance [118;50] [110;115] 4 3 [] ex_nodes = Ok l0 /\
-    rebalance [118;50] [110;115] 4 3 l0 (filter (fun nt => negb (bytes_eqb (fst nt) [98;49])) ex_nodes) = Ok l1 /\
+    rebalance balance_v2_str [110;115] 4 3 [] ex_nodes = Ok l0 /\
+    rebalance balance_v2_str [110;115] 4 3 l0 (filter (fun nt => negb (bytes_eqb (fst nt) [98;49])) ex_nodes) = Ok l1 /\
     olds_ok 4%nat 3%nat l0 /\ l0 <> l1.
 Proof.
   eexists. eexists. split; [vm_compute; reflexivity|]. split; [vm_compute; reflexivity|].
@@ -176,8 +176,8 @@ Proof.
 Qed.
 (* refusal is reachable, and so is the Panic outcome outside the hypotheses (replication factor lowered
    below the length of an old list whose leader died: DESIGN.md L1) *)
-Example C17_ex_refuse : rebalance [118;50] [110;115] 4 7 [] ex_nodes = Refuse.
+Example C17_ex_refuse : rebalance balance_v2_str [110;115] 4 7 [] ex_nodes = Refuse.
 Proof. vm_compute. reflexivity. Qed.
 Example C17_ex_panic_outside_hypotheses :
-  rebalance [118;50] [110;115] 1 2 [[[120];[98;49];[98;50]]] [([98;49], TagAbsent); ([98;50], TagAbsent)] = Panic.
+  rebalance balance_v2_str [110;115] 1 2 [[[120];[98;49];[98;50]]] [([98;49], TagAbsent); ([98;50], TagAbsent)] = Panic.
 Proof. vm_compute. reflexivity. Qed.
